@@ -243,10 +243,18 @@ GEN_STOP = (" ALSO, on every run harness/translate_driver.py re-translates _stop
             "proofs/DriverTie.v proves for ALL arguments that the generated definitions refine the model (check_tie, no_change_tie, "
             "update_lvl0/1_tie): a source change that alters behaviour breaks a proof obligation of this property's theorem file "
             "before any sampled input is needed.")
+GEN_SEARCH = (" ALSO, harness/translate_search.py re-translates search.py (Search._score, _initialization, _iteration, search_step, the loop of "
+              "search()) and the eval_time / iter_time / init_stats decorators into generated/SearchGen.v over the abstract optimizer on "
+              "every run; proofs/SearchTie.v proves that the generated step functions and loop SIMULATE the model driver for every "
+              "optimizer, objective, clock and state, and source_search_is_model_search shows that model init_search + generated loop + "
+              "model finish_search is the model's search(), so this property's theorem is restated for the generated code "
+              "(init_search / finish_search / __init__ bodies are pinned by digest and modelled by hand).")
 EXTRA = {
-    "C12": GEN_STOP + " Theorems C12_source_score_exceeded_refines, C12_source_check_refines.",
-    "C13": GEN_STOP + " Theorems C13_source_no_change_is_rule (the TRANSLATED no_change is the documented rule), C13_source_never_raises, C13_source_check_refines.",
-    "C14": GEN_STOP + " Theorems C14_source_time_exceeded_refines, C14_source_check_refines.",
+    "C12": GEN_STOP + " Theorems C12_source_score_exceeded_refines, C12_source_check_refines." + GEN_SEARCH + " Theorem C12_source_search_max_score_exact.",
+    "C03": GEN_SEARCH + " Theorems C03_source_search_step_refines, C03_source_search_loop_refines, C03_source_call_accounting.",
+    "C18": GEN_SEARCH + " Theorem C18_source_search_step_refines (the translated search_step is the model step that C18_search_eq_steps is about).",
+    "C13": GEN_STOP + " Theorems C13_source_no_change_is_rule (the TRANSLATED no_change is the documented rule), C13_source_never_raises, C13_source_check_refines." + GEN_SEARCH + " Theorem C13_source_search_stops_exactly.",
+    "C14": GEN_STOP + " Theorems C14_source_time_exceeded_refines, C14_source_check_refines." + GEN_SEARCH + " Theorem C14_source_search_max_time_exact.",
     "C05": GEN_STOP + " Theorems C05_source_update_lvl0/lvl1_refines, C05_source_verbosity_paths_agree, C05_source_new2best_spec.",
     "C16": (" ALSO, harness/translate_grid.py re-translates DiagonalGridSearchOptimizer.get_direction / grid_move / iterate and "
             "OrthogonalGridSearchOptimizer.grid_move / iterate (for / while / while-True loops, fuel explicit) into generated/GridGen.v "
@@ -260,7 +268,7 @@ EXTRA = {
     "C01": (" ALSO: the iterate steps of ParticleSwarmOptimizer, SpiralOptimization, DifferentialEvolutionOptimizer and the "
             "recombination step of EvolutionStrategy / GeneticAlgorithm are modelled (theories/Pop.v; the float vectors - new "
             "velocity, spiral point, mutant - are oracle tape entries recomputed by the harness) with closure theorems "
-            "C01_pso_iterate, C01_spiral_iterate, C01_de_iterate, C01_cross_or_climb (in box and feasible for every tape), tied "
+            "C01_pso_iterate, C01_spiral_iterate, C01_de_iterate, C01_es_iterate, C01_cross_or_climb (in box and feasible for every tape), tied "
             "to /repo by an S-unit replaying every iteration step of real runs (position, draws consumed, constraint evaluations)."),
     "C02": (" ALSO: C02_pso_iterate, C02_spiral_iterate, C02_de_iterate, C02_cross_or_climb (theories/Pop.v): the emitted position "
             "of the population optimizers' iterate is feasible on every path (first candidate, constraint loop, move_climb fallback, "
@@ -278,7 +286,7 @@ def main():
         tech, text, note, ref = CLAIMS[pid]
         text = text + EXTRA.get(pid, "")
         if pid in EXTRA:
-            tech = tech + " + source translator with machine-checked refinement (generated Gallina)" if pid not in ("C01", "C02", "C08") or pid == "C08" else tech
+            tech = tech + " + source translator with machine-checked refinement (generated Gallina)" if pid not in ("C01", "C02") else tech
         checks.append(dict(
             property_id=pid,
             quick_cmd="python3 harness/check.py %s --tier quick" % pid,
@@ -302,8 +310,8 @@ def main():
                    source_commits=[], add_only=True),
         engines=[
             dict(name="coq-model", path="/verif/coq", serves_properties=sorted(CLAIMS), kind_free_text="hand-written Gallina model (theories/), lemmas (proofs/), property theorems (props/Prop_Cxx.v, each with Print Assumptions)"),
-            dict(name="source-translators", path="/verif/harness/pytrans.py", serves_properties=["C05", "C08", "C12", "C13", "C14", "C15", "C16", "C18", "C19"],
-                 kind_free_text="translate_facades.py (C18 data), translate_core.py (tracker layer: C15, C19), translate_driver.py (_stop_run.py, _progress_bar.py: C05, C12-C14), translate_grid.py (grid search: C16, C08): Gallina regenerated from /repo's AST on every run, refinement to the hand model proved in proofs/*Tie.v"),
+            dict(name="source-translators", path="/verif/harness/pytrans.py", serves_properties=["C03", "C05", "C08", "C12", "C13", "C14", "C15", "C16", "C18", "C19"],
+                 kind_free_text="translate_facades.py (C18 data), translate_core.py (tracker layer: C15, C19), translate_driver.py (_stop_run.py, _progress_bar.py: C05, C12-C14), translate_grid.py (grid search: C16, C08), translate_search.py (search.py driver: C03, C12-C14, C18): Gallina regenerated from /repo's AST on every run, refinement to the hand model proved in proofs/*Tie.v"),
             dict(name="correspondence", path="/verif/harness", serves_properties=sorted(CLAIMS), kind_free_text="K/D/S units: implementation and model run on the same inputs; the model is evaluated inside Coq (generated cases files, vm_compute)"),
             dict(name="monitors", path="/verif/harness/props", serves_properties=sorted(CLAIMS), kind_free_text="direct Python encodings of each property used to find concrete failing inputs (replays); never the proof"),
         ],
